@@ -1,4 +1,5 @@
 import DefraModel.Query.Model
+import DefraModel.Encoding.FieldValue
 open Defra Defra.Query
 
 namespace Driver.Query
@@ -94,16 +95,53 @@ def showRes : AggRes → String
 
 structure St where
   docs : List Doc := []
+  ids : List (Nat × Bytes) := []     -- label ↦ docID bytes
+
+/-- IEEE-754 double bits of `n8 / 8` (driver only: Lean's runtime `Float`) -/
+def f64BitsOfEighths (n8 : Int) : Nat := (Float.ofInt n8 / 8.0).toBits.toNat
+
+def toEncVal : V → Enc.Val
+  | .null => .null
+  | .bool b => .bool b
+  | .int i => .int i
+  | .flt n => .f64 (f64BitsOfEighths n)
+  | .str s => .str s
+
+def insertStr (x : String) : List String → List String
+  | [] => [x]
+  | y :: ys => if x ≤ y then x :: y :: ys else y :: insertStr x ys
+def sortStr (l : List String) : List String := l.foldl (fun acc x => insertStr x acc) []
 
 def step (st : St) (toks : List String) : St × String :=
   match toks with
   | ["case", _] => ({}, "ok")
   | ["malformed", _] => (st, "handled")
-  | ["doc", id, name, age, score, flag] =>
-    match id.toNat?, parseV name, parseV age, parseV score, parseV flag with
-    | some i, some n, some a, some s, some f =>
-      ({ docs := st.docs ++ [{ id := i, fields := [("name", n), ("age", a), ("score", s), ("flag", f)] }] }, "ok")
-    | _, _, _, _, _ => (st, "bad-op")
+  | ["doc", id, name, age, score, flag, docid] =>
+    match id.toNat?, parseV name, parseV age, parseV score, parseV flag, Bytes.ofHex docid with
+    | some i, some n, some a, some s, some f, some did =>
+      ({ docs := st.docs ++ [{ id := i, fields := [("name", n), ("age", a), ("score", s), ("flag", f)] }],
+         ids := st.ids ++ [(i, did)] }, "ok")
+    | _, _, _, _, _, _ => (st, "bad-op")
+  | ["upd", id, field, v] =>
+    match id.toNat?, parseV v with
+    | some i, some x =>
+      ({ st with docs := st.docs.map (fun d => if d.id == i then
+          { d with fields := d.fields.map (fun p => if p.1 == field then (field, x) else p) } else d) }, "ok")
+    | _, _ => (st, "bad-op")
+  | ["del", id] =>
+    match id.toNat? with
+    | some i => ({ st with docs := st.docs.filter (fun d => d.id != i) }, "ok")
+    | none => (st, "bad-op")
+  | ["keys", col, idx, fields] =>
+    match col.toNat?, idx.toNat? with
+    | some c, some ix =>
+      let ks := parseOrder fields
+      let entries := st.docs.map (fun d =>
+        let comps := ks.map (fun k => (toEncVal (d.get k.field), k.desc))
+        let did := ((st.ids.find? (·.1 == d.id)).map (·.2)).getD []
+        Bytes.render (Enc.indexKey c ix (comps ++ [(.str did, false)])))
+      (st, s!"{entries.length} {",".intercalate (sortStr entries)}")
+    | _, _ => (st, "bad-op")
   | ["q", filt, order, limit, offset, sel] =>
     match parseF 12 filt, limit.toNat?, offset.toNat?, parseSel sel with
     | some f, some l, some o, some s =>
